@@ -2,7 +2,7 @@
 """
 C15 - ListOfDicts transformations match plain list-of-dict semantics.
 
-E1: every list of length 0..N over the 12-item alphabet
+E1: every list of length 0..N over the 15-item alphabet
 {a absent/None/1/2} x {b absent/None/'x'} x every argument of every
 transformation (predicates, key=value pairs, sort keys x directions, key
 subsets, indices, n, the full slice grid). Each execution runs on a freshly
@@ -42,8 +42,8 @@ ASSUMPTIONS = [
     "head()/tail() without n use the public setting dataiter.DEFAULT_PEEK_ITEMS",
 ]
 BOUND = {
-    "quick": "all lists of length 0..3 over 12 items (1885 lists) x all operations/arguments incl. the slice grid start,stop in {None,-n-1..n+1} x step in {None,1,2,-1}; chains to depth 2 from 6 start lists over a 69-operation alphabet",
-    "thorough": "all lists of length 0..4 over 12 items (22621 lists) x all operations/arguments incl. the full slice grid; chains to depth 3 from 6 start lists over a 69-operation alphabet",
+    "quick": "all lists of length 0..3 over 15 items x all operations/arguments incl. the slice grid start,stop in {None,-n-1..n+1} x step in {None,1,2,-1}; chains to depth 2 from 6 start lists over a 69-operation alphabet",
+    "thorough": "all lists of length 0..4 over 15 items x all operations/arguments incl. the full slice grid; chains to depth 3 from 6 start lists over a 69-operation alphabet",
 }
 TIME_CAP = {"quick": 240, "thorough": 2400}
 
@@ -61,6 +61,9 @@ def _item(a, b):
 
 
 ITEMS = [_item(a, b) for a in A_VALUES for b in B_VALUES]
+# same key set as {"a": 1, "b": "x"} but inserted in the other order (key order must not matter to any method);
+# -1 and -2 have equal Python hashes (keys must be compared, not their hashes)
+ITEMS += [{"b": "x", "a": 1}, {"a": -1, "b": "x"}, {"a": -2, "b": "x"}]
 
 STARTS = [
     [{"a": 1, "b": "x"}, {"a": None, "b": "x"}, {"a": 1, "b": None}],
